@@ -8,7 +8,7 @@ def parseOp (w : String) : Option Op :=
   let a := (parts[1]? >>= String.toNat?).getD 0
   let b := (parts[2]? >>= String.toNat?).getD 0
   match parts.head! with
-  | "lex" => some (.lex (a != 0)) | "less" => some (.less a) | "more" => some .more | "unput" => some (.unput a)
+  | "lex" => some (.lex (a != 0)) | "less" => some (.less a) | "less3" => some (.less a) | "more" => some .more | "unput" => some (.unput a)
   | "input" => some .input | "reject" => some .reject | "begin" => some (.begin_ a)
   | "push" => some (.push a) | "pop" => some .pop | "top" => some .top | "start" => some .start
   | "setbol" => some (.setbol a) | "atbol" => some .atbol
@@ -61,7 +61,7 @@ def Case.ruleInfos (c : Case) : Array RuleInfo :=
   let env : Env := { csize := c.csize }
   let f : Flags := { caseIns := c.caseIns }
   c.rules.map fun r =>
-    { head := (r.head.getD (.str [])).toRe env f, trail := r.trail.map (·.toRe env f) }
+    { head := (r.head.getD (.str [])).toRe env f, trail := r.trail.map (·.toRe env f), var := r.var }
 
 def cmdTrace (c : Case) (useSpec : Bool) : IO UInt32 := do
   let rs := RunSpec.ofCase c
